@@ -4,7 +4,9 @@ cd "$(dirname "$0")/.."
 tier=${1:-quick}; shift || true
 ids=${@:-$(python3 -c "import json;print(' '.join(c['property_id'] for c in json.load(open('MANIFEST.json'))['checks']))")}
 for id in $ids; do
+  mkdir -p .cache/out
   s=$(date +%s); out=$(./run.sh $id $tier 2>&1); st=$?; e=$(date +%s)
+  printf '%s\n' "$out" > .cache/out/$id.$tier.out   # kept for tools/stale_known.py
   echo "$id exit=$st $((e-s))s viol=$(echo "$out" | grep -c '^VIOLATION') known=$(echo "$out" | grep -c '^KNOWN-FINDING') :: $(echo "$out" | tail -1 | cut -c1-160)"
   [ $st -ne 0 ] && echo "$out" | grep '^VIOLATION' | head -5 | cut -c1-300
 done
